@@ -67,7 +67,7 @@ class Nack(DLBound, Transition):
     name = 'nack'
     kind = 'nack'
     sizes = {'Topic': 2, 'Subscription': 2, 'Message': 1, 'Delivery': 2}
-    sizes_thorough = {'Topic': 2, 'Subscription': 2, 'Message': 2, 'Delivery': 3}
+    sizes_thorough = {'Topic': 2, 'Subscription': 2, 'Message': 2, 'Delivery': 2}     # thorough also lifts the one-dead-letter-subscriber bound
 
     def make_args(self, ex, db):
         n = ex.choose(3)
@@ -138,7 +138,7 @@ class Pull(DLBound, Transition):
     name = 'pull'
     kind = 'pull'
     sizes = {'Topic': 2, 'Subscription': 2, 'Message': 2, 'Delivery': 2}
-    sizes_thorough = {'Topic': 2, 'Subscription': 2, 'Message': 2, 'Delivery': 3}
+    sizes_thorough = None      # thorough lifts the one-dead-letter-subscriber bound (same table sizes)
 
     def make_args(self, ex, db):
         a = name_or_id_args(ex, db, 'sub')
